@@ -176,8 +176,10 @@ def write(s, directory, as_object=False):
     return ",".join(names)
 
 
-def compiler_log(s, path, rng):
-    """one ideal-cycle table covering the kernel names of the scenario (some zero, some unlisted)"""
+def compiler_log(s, path, rng, allow_zero_total=False):
+    """one ideal-cycle table covering the kernel names of the scenario (some zero, some unlisted).
+    A table whose cycles are all zero makes the tool divide by zero (fingerprint similarity); it is produced only
+    on request (C02/C11 treat that case explicitly)."""
     names = sorted({t["name"].rsplit(" Cmpt Exec", 1)[0] for t in s.truth.values() if t["kind"] == "Cmpt Exec"})
     cats = ["opCatConv_fp16", "opCatBroadcast", "opCatPooling", "opCatBmm_fp16", "opCatScalar"]
     lines = ["[DeepRT] ===== Perf BEGIN =====", "====== Perf Summary ======", "~~~~ Ideal/Total Cycles ~~~~",
@@ -191,6 +193,12 @@ def compiler_log(s, path, rng):
         table[n] = (cyc, cat)
         total += cyc
         lines.append(f"{n}-{cat}".ljust(80) + f"{cyc}".ljust(15))
+    if total == 0 and not allow_zero_total:
+        n = names[0] if names else "add_11"
+        table[n] = (4096, cats[0])
+        total = 4096
+        lines = [ln for ln in lines if not ln.startswith(f"{n}-")]
+        lines.append(f"{n}-{cats[0]}".ljust(80) + "4096".ljust(15))
     lines += ["-" * 91, f"Total\t\t\t\t\t\t\t\t\t\t{total}", "-" * 91, "====== Perf Summary End ======",
               "[DeepRT] ===== Perf END ====="]
     open(path, "w").write("\n".join(lines) + "\n")
